@@ -19,10 +19,10 @@ ASSUMPTIONS = [
     'scripts longer than 80 bytes have symbolic first/last two bytes and concrete filler',
 ]
 BOUNDS = {
-    'quick': 'transactions with 1..2 inputs and 1..2 outputs; every sign index; signed input kind: p2pkh, p2pk, p2sh multisig (m-of-n, n<=3, m symbolic), p2wpkh, p2sh-p2wpkh, p2wsh multisig, p2sh-p2wsh multisig, the other input legacy or segwit; version, locktime, sequences, outpoint indices: all 32-bit values; txids: all 32-byte values; values up to 21e14; output script lengths {0,1,2,25}',
-    'thorough': 'as quick with up to 3 inputs/outputs, output script lengths {0,1,2,22,25,75,76,252,253}, multisig n<=5, and output counts 252/253 (CompactSize boundary) with one symbolic output',
+    'quick': 'transactions with 1..2 inputs and 1..2 outputs; every sign index; signed input kind: p2pkh, p2pk (33- and 65-byte keys), p2sh multisig (m-of-n, n<=3, m symbolic), p2wpkh, p2sh-p2wpkh, p2wsh multisig, p2sh-p2wsh multisig, the other input legacy or segwit; version, locktime, sequences, outpoint indices: all 32-bit values; txids: all 32-byte values; values up to 21e14; output script lengths {0,1,2,25}',
+    'thorough': 'as quick with up to 3 inputs (2 outputs), output script lengths {0,1,2,25,76,253}, multisig n<=4, and output counts 252/253 (CompactSize boundary) with one symbolic output for every input kind (a first sizing with 3 outputs, 9 lengths and n<=5 did not finish in 50 min per job)',
 }
-OUTSIDE = 'Taproot; hash types other than ALL; that the uninterpreted hash is SHA256d; multisig n > 5'
+OUTSIDE = 'Taproot; hash types other than ALL; that the uninterpreted hash is SHA256d; multisig n > 4'
 MAXV = 21 * 10 ** 14
 
 
@@ -308,9 +308,9 @@ def jobs(tier):
     others = ['p2pkh', 'p2wpkh']
     for kind in KINDS:
         j = Job('sighash_%s' % kind, h_sighash, W=72, setup=setup, budget_s=3000,
-                params=dict(kind=kind, other_kinds=others, max_in=2 if q else 3, max_out=2 if q else 3,
-                            out_lens=[0, 1, 2, 25] if q else [0, 1, 2, 22, 25, 75, 76, 252, 253],
-                            nkeys=3 if q else 5))
+                params=dict(kind=kind, other_kinds=others, max_in=2 if q else 3, max_out=2,
+                            out_lens=[0, 1, 2, 25] if q else [0, 1, 2, 25, 76, 253],
+                            nkeys=3 if q else 4))
         j.cost = 50
         J.append(j)
     J.append(Job('input_init', h_input_init, W=72, setup=setup_init, budget_s=1500))
